@@ -1034,6 +1034,12 @@ func (vc *VC) evalCall(env *Env, t CCall) Term {
 			x = vc.coerceTo(x, sig.Args[i+1])
 			if base == "" && x.Sort == SSlice {
 				base = "(sl.base " + x.S + ")"
+				// the backing array passed is that of the slice's own element type ([]byte, []string, ...)
+				if x.T != nil {
+					if sl, ok := x.T.Underlying().(*types.Slice); ok {
+						key = vc.memKey(sl.Elem())
+					}
+				}
 			}
 			args = append(args, x.S)
 		}
